@@ -38,19 +38,31 @@ def gen_literals(rng, n):
     dates = [(2024, 2, 29), (2023, 12, 31), (2024, 1, 1), (2024, 3, 1), (1970, 1, 2), (2000, 2, 29), (2023, 2, 28), (2038, 1, 19), (1999, 12, 31)]
     out = []
     seen = set()
+    # always present: the unquoted spellings a user types (every combination of padded / unpadded month and day, both separators)
+    for (y, m, d) in ((2024, 2, 29), (2024, 3, 1), (2023, 12, 9)):
+        for sep in ("-", ":"):
+            for fm, fd in (("%02d", "%02d"), ("%d", "%02d"), ("%02d", "%d"), ("%d", "%d")):
+                t = ("%04d" + sep + fm + sep + fd) % (y, m, d)
+                if (t, False) not in seen:
+                    seen.add((t, False))
+                    out.append((t, "day", (y, m, d, 0, 0, 0), sep, False))
+    n += len(out)
     while len(out) < n:
         y, m, d = rng.choice(dates) if rng.random() < 0.6 else (rng.randint(1971, 2090), rng.randint(1, 12), rng.randint(1, 28))
         H, M, S = rng.choice([(0, 0, 0), (23, 59, 59), (12, 30, 15), (rng.randint(0, 23), rng.randint(0, 59), rng.randint(0, 59))])
         prec = rng.choice(["day", "hour", "minute", "second"])
         sep = rng.choice(["-", "-", ":"])
-        t = "%04d%s%02d%s%02d" % (y, sep, m, sep, d)
+        # fields may be written without the leading zero (2024-2-9 7:5:3), quoted or - at day precision - unquoted
+        pad = rng.random() < 0.7
+        f2 = (lambda v: "%02d" % v) if pad else (lambda v: "%d" % v)
+        t = "%04d%s%s%s%s" % (y, sep, f2(m), sep, f2(d))
         if prec != "day":
-            t += " %02d" % H
+            t += " " + f2(H)
         if prec in ("minute", "second"):
-            t += ":%02d" % M
+            t += ":" + f2(M)
         if prec == "second":
-            t += ":%02d" % S
-        quoted = not (prec == "day" and sep == "-" and rng.random() < 0.5)
+            t += ":" + f2(S)
+        quoted = not (prec == "day" and rng.random() < 0.5)
         if (t, quoted) in seen:
             continue
         seen.add((t, quoted))
@@ -228,7 +240,7 @@ def run(ctx):
         ctx.notes.append("harness: fallback-binary-only (%s)" % str(e)[:200])
     ctx.coverage.update(
         evaluations=st["evaluations"], distinct_nontrivial=len(st["distinct"]), traces_validated_against_impl=st["agreed"],
-        rule="files whose mtimes lie on the grid a-1, a, a+1, b-1, b, b+1 (three in four with a sub-second part .5, .999999999 or .000000001) around every literal's interval [a, b] (leap day, month/year ends, epoch, 2038) x literals at day/hour/minute/second precision with '-' and ':' separators, quoted and unquoted, plus today/yesterday/+N/-N against the date read at run time x the eight comparison operators, TZ=UTC; rows vs interval arithmetic in Z (spec) and vs model.Datetime + the regenerated comparison table; `modified` text vs format_datetime; parse_datetime outcome classes through the harness on malformed strings. non-trivial = a comparison selecting a proper non-empty subset of the %d files" % len(grid),
+        rule="files whose mtimes lie on the grid a-1, a, a+1, b-1, b, b+1 (three in four with a sub-second part .5, .999999999 or .000000001) around every literal's interval [a, b] (leap day, month/year ends, epoch, 2038) x literals at day/hour/minute/second precision with '-' and ':' separators, with and without leading zeros in month/day/hour/minute/second, quoted and unquoted, plus today/yesterday/+N/-N against the date read at run time x the eight comparison operators, TZ=UTC; rows vs interval arithmetic in Z (spec) and vs model.Datetime + the regenerated comparison table; `modified` text vs format_datetime; parse_datetime outcome classes through the harness on malformed strings. non-trivial = a comparison selecting a proper non-empty subset of the %d files" % len(grid),
         samples=st["samples"], distribution=dict(st["hist"]))
     return ctx.finish(trusted=["local time is modelled under a fixed UTC offset (checks run with TZ=UTC); the tz database / DST and chrono_english free-form dates are outside the model",
                                "the clock (`today`) is read by the check at run time and handed to the model as a parameter"])
